@@ -1967,19 +1967,26 @@ func removeFilesExcept(osys OS, dir, filename string) (retErr error) {
 		return err
 	}
 
-	// Remove the newest files first (entries are sorted by name). If the
-	// process dies half way the files that remain must not look like a chain
-	// that continues past the exception file (a snapshot that rewinds a node
-	// that was ahead of its primary).
-	for i := len(ents) - 1; i >= 0; i-- {
-		ent := ents[i]
-
-		// Skip directories & exception file.
-		if ent.IsDir() || ent.Name() == filename {
-			continue
-		}
-		if err := osys.Remove("REMOVEFILESEXCEPT", filepath.Join(dir, ent.Name())); retErr == nil {
-			retErr = err
+	// If the process dies half way, the files that remain must either still
+	// end with the old log (the database still holds its last transaction) or
+	// be taken over by the exception file (a snapshot that rewinds a node that
+	// was ahead of its primary), and must never look like one chain of both.
+	// So the files that end above the exception file go first, oldest first:
+	// that opens a gap right above the exception file and keeps the newest old
+	// file to the last. The files it supersedes follow.
+	_, exceptMaxTXID, _ := ltx.ParseFilename(filename)
+	for _, above := range []bool{true, false} {
+		for _, ent := range ents {
+			// Skip directories & exception file.
+			if ent.IsDir() || ent.Name() == filename {
+				continue
+			}
+			if _, maxTXID, err := ltx.ParseFilename(ent.Name()); (err == nil && maxTXID > exceptMaxTXID) != above {
+				continue
+			}
+			if err := osys.Remove("REMOVEFILESEXCEPT", filepath.Join(dir, ent.Name())); retErr == nil {
+				retErr = err
+			}
 		}
 	}
 
